@@ -243,6 +243,29 @@ def run(case):
             except Exception as e:
                 fr = "err:" + canon_exc(e)
         extra["frozen" + j] = fr
+        # "every plain member [is set] to its constant": editing one instance's plain-member values in place (lists,
+        # dicts) changes neither the class nor an instance built afterwards
+        iso = None
+        if j in insts:
+            try:
+                # only members the `datasetclass` decorator itself wraps (annotated, declared on the decorated class):
+                # an un-annotated member, one inherited from an undecorated base, or one added by an undecorated
+                # subclass is an ordinary class attribute, shared by Python itself
+                dcsub = case.get("inherit") == "dcsub" and case["base"]
+                decorated = case["base"] if dcsub else case["own"]
+                hidden = {n for n, _, _ in case["own"]} if dcsub else set()
+                consts = {n: sp["v"] for n, sp, ann in decorated if sp["k"] == "const" and ann and n not in hidden}
+                a = C(dec(case["o" + j]))
+                for n in consts:
+                    v = getattr(a, n)
+                    if isinstance(v, (dict, list)):
+                        scribble(v)
+                c = C(dec(case["o" + j]))
+                bad = [[n, enc(getattr(c, n)), consts[n]] for n in sorted(consts) if enc(getattr(c, n)) != consts[n]]
+                iso = True if not bad else {"member, value in a later instance, declared constant": bad}
+            except Exception as e:
+                iso = "err:" + canon_exc(e)
+        extra["isolated" + j] = iso
     return {"obs": obs, "extra": extra}
 
 for line in sys.stdin:
@@ -371,6 +394,9 @@ def oracle(case, res):
         if extra["frozen" + j] not in (None, True):
             problems.append(f"instance {j} changed (or stopped being equal to a fresh instance from the same options) "
                             f"after the caller wrote into the dictionary it was built from: {extra['frozen' + j]}")
+        if extra.get("isolated" + j) not in (None, True):
+            problems.append(f"a plain member of a later instance is not its declared constant after an earlier instance's value "
+                            f"was edited in place (instances share the class's mutable constant): {extra['isolated' + j]}")
         if not is_err(inst) and not idx and isinstance(obs["keys" + j], list):
             try:
                 R = restrict(o, obs["keys" + j])
